@@ -8,6 +8,18 @@ HERE = os.path.dirname(os.path.dirname(os.path.abspath(__file__)))
 
 # id -> (level, technique, text, note, design_ref)
 CHECKS = {
+    'C15': ('exploration',
+            'Hypothesis generation of workbooks x options and of arbitrary tables; completion + sheet / row / '
+            'column / figure inventory oracle; write->read round trip; the shipped example',
+            'excel_ui.run on generated workbooks (healthy rows and rows with documented faults; plots on/off, '
+            'histogram sheet on/off, explicit/default output path) and on the shipped example must return, write '
+            'the documented sheets in order, preserve every input row and column, add the documented result '
+            'columns, and write every documented figure for healthy rows and none for failed rows; arbitrary '
+            'tables survive write_workbook/read_table (values, column names, identifiers; rows without identifier '
+            'dropped; duplicated identifiers refused).',
+            'Trusted: pandas/openpyxl for reading the output; floats within +-1e300 compared at 1e-14; strings '
+            'outside spreadsheet/pandas special spellings.',
+            'DESIGN.md section 4, C15'),
     'C10': ('exploration',
             'Hypothesis generation of experiments (instruments x bead rows x sample rows x units); differential: '
             'Excel workflow result == hand composition of the documented library calls (exact), statistics == '
